@@ -128,7 +128,7 @@ def make_defs(tier: str, seed: int):
     kinds = ["private", "crate", "super", "in", "pub"]
     modes = {"as_str": ["match", "table", "auto"], "from_str": ["match", "table", "auto"], "FromStr": ["match", "table", "auto"],
              "iter": ["auto", "next_and_back", "table", "table_inline"]}
-    reps = 1 if tier == "quick" else 4
+    reps = 1 if tier == "quick" else 8
     for rep in range(reps):
         for kind in kinds:
             for fi, fs in enumerate(feature_sets):
